@@ -237,9 +237,12 @@ def check_parts(W, rec, parts, boundary: str, paths=("events", "encode_multipart
             rec.nontrivial(("b", repr(parts), boundary))
         with rec.guard(case, "C02/encode_multipart"):
             md = DS.MultiDict()
+            trickle = len(pj) % 3 == 1  # the uploads come from streams that hand out a few bytes per read (a socket, a pipe)
+            if trickle:
+                rec.observe("uploads_from_short_reading_streams")
             for kind, name, filename, ctype, value in parts:
                 if kind == "file":
-                    md.add(name, DS.FileStorage(io.BytesIO(value), filename=filename, name=name, content_type=ctype or "application/octet-stream"))
+                    md.add(name, DS.FileStorage(Trickle(value, 1 + len(value) % 7) if trickle else io.BytesIO(value), filename=filename, name=name, content_type=ctype or "application/octet-stream"))
                 else:
                     md.add(name, value)
             use_stream = len(parts) % 2 == 0
@@ -299,6 +302,18 @@ def check_parts(W, rec, parts, boundary: str, paths=("events", "encode_multipart
                     rv = Request.from_values(method="POST", data=data_v, **kwc)
                     _compare_form_files(rec, dict(case, path="from_values"), "from_values", parts, rv.form, rv.files)
                     rv.close()
+                if len(parts) % 2 == 1 and any(p_[0] == "field" for p_ in parts):
+                    # history: the same builder produces a second request after its form was edited in place
+                    # (uploads are consumed by the first request - only the text fields are compared)
+                    b.form.add("added-later", "x\u00e9")
+                    b.form.setlist(parts[[p_[0] for p_ in parts].index("field")][1], ["replaced"])
+                    r_again = b.get_request(Request)
+                    rec.observe("builders_used_for_a_second_request")
+                    first_name = parts[[p_[0] for p_ in parts].index("field")][1]
+                    exp2 = _group([[n_, v_] for k_, n_, f_, c_, v_ in parts if k_ == "field" and n_ != first_name] + [["added-later", "x\u00e9"], [first_name, "replaced"]])
+                    got2 = _group([[k_, v_] for k_, v_ in r_again.form.items(multi=True)])
+                    if sorted(map(tuple, got2)) != sorted(map(tuple, exp2)):
+                        rec.violation("C02/builder_second_request:form-differs", f"after form.add / form.setlist on the builder the second request carries {got2!r}, expected {exp2!r}", dict(case, path="builder_second_request"), monitor="roundtrip")
                 if len(parts) % 2 == 0:
                     # history: a second builder is made from that request's environ and given other form data
                     # (re-sending a captured request with edited fields); the new request is described by the new data
@@ -428,6 +443,27 @@ def check_urlencoded(W, rec, pairs):
             rec.observe("path:test_client_urlencoded")
             if seen_c.get("form") != exp or seen_c.get("args") != exp:
                 rec.violation("C02/test_client:urlencoded-differs", f"expected {exp!r} got form {seen_c.get('form')!r} args {seen_c.get('args')!r}", case, monitor="roundtrip")
+
+
+class Trickle(io.RawIOBase):
+    """An upload source that returns at most k bytes per read() however many are asked for."""
+
+    def __init__(self, data, k):
+        self.data, self.k, self.pos = data, k, 0
+
+    def readable(self):
+        return True
+
+    def read(self, n=-1):
+        n = self.k if n is None or n < 0 else min(n, self.k)
+        out = self.data[self.pos:self.pos + n]
+        self.pos += len(out)
+        return out
+
+    def readinto(self, b):
+        d = self.read(len(b))
+        b[:len(d)] = d
+        return len(d)
 
 
 def near_copy_beyond_a_read(W, rec, rng):
